@@ -57,6 +57,8 @@ struct Shm {
   volatile int32_t late_nosig;    // loop iterations begun > timeout + 5 s after t0 with no signal sent yet
   volatile int32_t eintr_injected[K_NKINDS];  // calls answered with -1/EINTR by the plan without being performed
   volatile int32_t eintr_observed[K_NKINDS];  // real calls that came back with EINTR (signal storm / sibling SIGCHLD)
+  volatile uint64_t short_deadline_us;  // slow-parent scenarios: the deadline/timeout the long delay must outlast
+  volatile uint64_t exited_seen_ns;     // first time the sleeping parent-side shim saw the child as a zombie (or already reaped)
   volatile int32_t late_nokill;   // loop iterations begun > 10 s after the first signal, child not SIGKILLed yet
   volatile uint32_t rec_len;
   char rec[48 * 1024];
@@ -64,7 +66,8 @@ struct Shm {
 static Shm* g_shm;
 static volatile bool g_active = false;  // true only while the SP is inside the phosg call
 
-enum { MODE_SLEEP = 0, MODE_SETTLE = 1, MODE_EINTR = 2 };
+// MODE_PAST_DEADLINE: one long delay that ends 300 ms after the call's deadline/timeout has passed (slow parent)
+enum { MODE_SLEEP = 0, MODE_SETTLE = 1, MODE_EINTR = 2, MODE_PAST_DEADLINE = 3 };
 enum { SIG_NONE = 0, SIG_ALARM_STORM = 1, SIG_SIBLING_CHLD = 2 };
 struct Delay {
   int kind;
@@ -82,7 +85,8 @@ struct Plan {
     for (int i = 0; i < n; i++) {
       if (!r.empty()) r += ",";
       r += fmt("%s#%u:", KIND_NAMES[items[i].kind], items[i].k);
-      r += items[i].mode == MODE_SETTLE ? string("settle") : items[i].mode == MODE_EINTR ? string("EINTR") : fmt("%uus", items[i].us);
+      r += items[i].mode == MODE_SETTLE ? string("settle") : items[i].mode == MODE_EINTR ? string("EINTR")
+           : items[i].mode == MODE_PAST_DEADLINE ? string("until-deadline+300ms") : fmt("%uus", items[i].us);
     }
     if (all_us) r += fmt("%sall:%uus", r.empty() ? "" : ",", all_us);
     if (sig) r += string(r.empty() ? "" : ",") + (sig == SIG_ALARM_STORM ? "signals:SIGALRM-every-3ms" : "signals:SIGCHLD-from-3-siblings");
@@ -90,6 +94,7 @@ struct Plan {
   }
   string cls() const {
     if (sig) return sig == SIG_ALARM_STORM ? "plan:signals:sigalrm-storm" : "plan:signals:sibling-sigchld";
+    if (n >= 1 && items[0].mode == MODE_PAST_DEADLINE) return fmt("plan:%s:past-deadline", KIND_NAMES[items[0].kind]);
     if (n >= 1 && items[0].mode == MODE_EINTR) return fmt("plan:%s:eintr%s", KIND_NAMES[items[0].kind], n > 1 ? "-multi" : "");
     if (n == 0 && !all_us) return "plan:none";
     if (n == 0) return "plan:all-calls";
@@ -217,11 +222,31 @@ static void wait_child_settled() {
   }
 }
 
+// Sleeps until 300 ms after the deadline of the call and, while doing so, watches the child: the first moment it is
+// seen as a zombie (exit complete, pipe ends closed) is the evidence for "the child had finished in time".
+static void sleep_past_deadline() {
+  const uint64_t target = g_shm->t0_ns + (g_shm->short_deadline_us + 300000ULL) * 1000ULL;
+  for (;;) {
+    if (!g_shm->exited_seen_ns) {
+      pid_t pid = g_shm->child_pid;
+      if (g_shm->reaped) {
+        g_shm->exited_seen_ns = mono_ns();
+      } else if (pid > 0) {
+        ProcStat ps = proc_stat(pid);
+        if (ps.ok && ps.state == 'Z') g_shm->exited_seen_ns = mono_ns();
+      }
+    }
+    if (mono_ns() >= target) return;
+    sleep_us(1000);
+  }
+}
+
 static void apply_delay(int kind, uint64_t k) {
   for (int i = 0; i < g_plan.n; i++) {
     const Delay& d = g_plan.items[i];
     if (d.kind == kind && d.k == k) {
-      if (d.mode == MODE_SETTLE) wait_child_settled();
+      if (d.mode == MODE_PAST_DEADLINE) sleep_past_deadline();
+      else if (d.mode == MODE_SETTLE) wait_child_settled();
       else if (d.mode == MODE_SLEEP) sleep_us(d.us);
     }
   }
@@ -425,6 +450,8 @@ struct Scenario {
   bool check = false;
   uint64_t timeout_us = 0;  // run_process timeout / communicate deadline (0 = none)
   bool ptr_overload = false;
+  bool slow_parent = false;  // short deadline + one delay that outlasts it; judged only if the child was seen to finish in time
+  bool presettle = false;    // communicate is called only after the child has exited / blocked
   int life_kind = 0;
   Plan plan;
   uint64_t key = 0;
@@ -799,6 +826,54 @@ static vector<Scenario> build_scenarios(const vf::Ctx& c) {
         finish(sc);
       }
   }
+  // ---- slow parent, short deadline: the child finishes in time (its exit is observed before the deadline), but one delay
+  //      at the parent's k-th waitpid/poll/read outlasts the deadline, so the parent notices the exit only afterwards.
+  //      The child finished in time, so the result must be its complete output: no "timed out", no truncation.
+  {
+    static const int kinds[] = {K_WAITPID, K_POLL, K_READ};
+    int n = 0;
+    auto add = [&](Api api, const vector<string>& ops, size_t P, size_t V, uint64_t dl_us, int kind, uint32_t k, bool presettle) {
+      Scenario sc;
+      sc.api = api;
+      sc.beh = V > 65536 ? "slow-parent-big-output" : P ? "slow-parent-after-stdin" : presettle ? "slow-parent-child-already-exited" : "slow-parent";
+      sc.ops = ops;
+      sc.payload = P;
+      sc.stdin_null = (api == RP && P == 0);
+      sc.vol = V;
+      sc.timeout_us = dl_us;
+      sc.slow_parent = true;
+      sc.presettle = presettle;
+      sc.ptr_overload = (n % 2) == 0;
+      sc.plan = single(kind, k, MODE_PAST_DEADLINE, 0);
+      n++;
+      finish(sc);
+    };
+    static const size_t vols[] = {1, 4096, 60000};
+    for (size_t V : vols)
+      for (int pre = 0; pre < 2; pre++)
+        for (int d = 0; d < 2; d++)
+          for (int kind : kinds)
+            for (uint32_t k = 1; k <= 3; k++) {
+              if (quick && (n++ % 4) != 0) continue;
+              add(CM, {W(1, V), fmt("X:%d", (int)k)}, 0, V, d ? 500000 : 250000, kind, k, pre == 1);
+            }
+    // 200000 bytes need a reader that keeps up: the delay comes when less than a pipe-full is left
+    for (int kind : kinds)
+      for (uint32_t k : {36u, 42u, 47u}) {
+        if (quick && k == 42) continue;
+        add(CM, {W(1, 200000), "X:0"}, 0, 200000, 500000, kind, k, false);
+      }
+    // the child first reads a small payload to EOF: the delay comes after stdin has been written and closed
+    for (int kind : kinds)
+      for (uint32_t k : {3u, 4u}) add(CM, {"R:*:65536:0", W(1, 5000), "X:0"}, 100, 5000, 500000, kind, k, false);
+    // run_process: the timeout passes while the parent is delayed, the child had already exited
+    for (size_t V : vols)
+      for (int kind : kinds)
+        for (uint32_t k = 1; k <= 2; k++) {
+          if (quick && (n++ % 2) != 0) continue;
+          add(RP, {W(1, V), W(2, V % 1000), fmt("X:%d", (int)k)}, 0, V, 400000, kind, k, false);
+        }
+  }
   // ---- EINTR: a signal handler installed without SA_RESTART runs in the parent during the call.  Injected
   //      deterministically at the calls a signal can really interrupt (poll; waitpid without WNOHANG), and produced for
   //      real by a 3 ms SIGALRM interval timer or by three sibling children exiting (SIGCHLD) during the call.
@@ -1167,6 +1242,19 @@ struct SignalEnv {
 };
 static SignalEnv g_sigenv;
 
+// slow-parent scenarios: was the child seen as a zombie at least 20 ms before the deadline (counted from just before
+// the call, i.e. earlier than phosg starts counting)?
+static bool finished_in_time(const Scenario& sc, string* what) {
+  uint64_t seen = g_shm->exited_seen_ns, t0 = g_shm->t0_ns;
+  bool ok = seen && seen + 20000000ULL < t0 + sc.timeout_us * 1000ULL;
+  if (what) {
+    if (!seen) *what = "the child's exit was not observed during the delay";
+    else *what = fmt("child seen as a zombie %.1f ms after the call began, deadline %.0f ms", ((double)seen - (double)t0) / 1e6, sc.timeout_us / 1e3);
+  }
+  cls(ok ? "slow-parent:judged-child-finished-in-time" : "slow-parent:skipped-child-not-seen-in-time");
+  return ok;
+}
+
 static void sp_run_process(const Scenario& sc) {
   const string api = "run_process";
   string payload;
@@ -1194,6 +1282,15 @@ static void sp_run_process(const Scenario& sc) {
   pid_t child = g_shm->child_pid;
 
   const bool timed = e.blocks_forever;  // only a timeout can end this child
+  string in_time_what;
+  if (sc.slow_parent && !finished_in_time(sc, &in_time_what)) {
+    // the timeout may legitimately have ended the child (slow exec on a loaded machine): nothing to conclude about values
+    rec('I', "run_process:slow-parent-child-not-in-time", in_time_what);
+    unlink(g_receipt.c_str());
+    check_reaped(api, child);
+    check_fds(api, before);
+    return;
+  }
   bool check_throw = msg.compare(0, 21, "command returned code") == 0;
   int got_status = -1;
   if (threw) {
@@ -1316,6 +1413,17 @@ static void sp_communicate(const Scenario& sc) {
       phosg::Subprocess sp(cmd, -1, -1, err_pipe ? -1 : devnull);
       child = sp.pid();
       try {
+        if (sc.presettle) {
+          // use the object later: the child has long exited (or is blocked) when communicate is called
+          g_active = false;
+          for (int i = 0; i < 20; i++) {
+            wait_child_settled();
+            ProcStat ps = proc_stat(child);
+            if (!ps.ok || ps.state == 'Z') break;
+          }
+          g_active = true;
+        }
+        g_shm->t0_ns = mono_ns();
         t0 = mono();
         vf::poison_errno();
         if (sc.ptr_overload) out = sp.communicate(payload.data(), payload.size(), sc.timeout_us);
@@ -1347,7 +1455,11 @@ static void sp_communicate(const Scenario& sc) {
     }
   } else if (threw) {
     bool timed_out = msg.find("timed out") != string::npos;
-    if (timed_out && sc.timeout_us && (t1 - t0) * 1e6 >= (double)sc.timeout_us) {
+    string itw;
+    if (timed_out && sc.slow_parent && finished_in_time(sc, &itw)) {
+      viol(api + ":threw-timed-out", fmt("threw '%s' although the child had finished in time (%s); the parent was merely slow (%s)", msg.c_str(),
+                                          itw.c_str(), sc.plan.str().c_str()));
+    } else if (timed_out && sc.timeout_us && (t1 - t0) * 1e6 >= (double)sc.timeout_us) {
       // the deadline really passed (overloaded machine): nothing can be concluded from this execution
       rec('I', "communicate:deadline-really-expired", fmt("%.1fs", t1 - t0));
     } else if (timed_out) {
@@ -1357,6 +1469,7 @@ static void sp_communicate(const Scenario& sc) {
       viol(api + ":exception:" + exc_class(msg), "threw instead of returning stdout: " + printable(msg, 160));
     }
   } else {
+    if (sc.slow_parent) finished_in_time(sc, nullptr);  // coverage class only: a normal return is always judged in full
     cmp_stream(api, "stdout", out, e.out, false);
     if (status >= 0 && status != e.status) cnt("communicate:status-differs-from-script");
     cls("communicate:outcome:result");
@@ -1442,6 +1555,7 @@ static void sp_main(const Scenario& sc) {
   prctl(PR_SET_PDEATHSIG, SIGKILL);
   setpgid(0, 0);  // own process group: the monitor kills the whole group (lingering grandchildren) afterwards
   g_shm->timeout_us = (sc.api == RP && sc.timeout_us && sc.timeout_us < 100000000ULL) ? sc.timeout_us : 0;
+  g_shm->short_deadline_us = sc.slow_parent ? sc.timeout_us : 0;
   g_plan = sc.plan;
   for (int i = 0; i < sc.plan.n; i++)
     if (sc.plan.items[i].mode == MODE_EINTR && sc.plan.items[i].kind != K_POLL && sc.plan.items[i].kind != K_WAITB)
